@@ -117,13 +117,21 @@ def derive(ra, rows, chain):
     return ra, [list(r) for r in rows]
 
 
-def run_probe(probe, a, rows):
-    """-> JSON-like observation; exceptions are observations too (type only)"""
+def run_probe(probe, mk, rows):
+    """-> JSON-like observations; exceptions are observations too (type only).  `mk()` gives a NEW array (a newly derived,
+    still lazy one for the derived side) for EVERY observation, so that an earlier read cannot hide a defect of a later one."""
     from npstructures import RaggedArray
+
+    class _A:
+        def __getattr__(self, name):
+            return getattr(mk(), name)
+
+        def __getitem__(self, idx):
+            return mk()[idx]
 
     def obs(f):
         try:
-            r = f()
+            r = f(mk())
             if isinstance(r, RaggedArray):
                 r = ("ragged", r.tolist(), str(r.dtype))
         except Exception as e:
@@ -138,40 +146,51 @@ def run_probe(probe, a, rows):
         return ("array", r.tolist(), str(r.dtype))
     n = len(rows)
     maxl = max([len(r) for r in rows] + [0])
+    fmask = RaggedArray([[(v % 3) != 0 for v in r] for r in rows], dtype=bool) if n else None     # built independently of `a`
     if probe == "tolist":
-        return [obs(lambda: a)]
+        return [obs(lambda a: a)]
     if probe == "meta":
         # the integer width of the row-length vector is not an observable any property fixes: values only
-        return [obs(lambda: int(len(a))), obs(lambda: int(a.size)), obs(lambda: int(a.shape[0])),
-                obs(lambda: np.asarray(a.shape[1]).tolist()), obs(lambda: np.asarray(a.lengths).tolist())]
+        return [obs(lambda a: int(len(a))), obs(lambda a: int(a.size)), obs(lambda a: int(a.shape[0])),
+                obs(lambda a: np.asarray(a.shape[1]).tolist()), obs(lambda a: np.asarray(a.lengths).tolist())]
     if probe == "int_rows":
-        return [obs(lambda i=i: a[i]) for i in range(-n - 1, n + 1)]
+        return [obs(lambda a, i=i: a[i]) for i in range(-n - 1, n + 1)]
     if probe == "elements":
-        return [obs(lambda i=i, j=j: a[i, j]) for i in range(-n, n) for j in range(-maxl - 1, maxl + 1)]
+        return [obs(lambda a, i=i, j=j: a[i, j]) for i in range(-n, n) for j in range(-maxl - 1, maxl + 1)]
     if probe == "int_cols":
-        return [obs(lambda j=j: a[:, j]) for j in range(-maxl - 1, maxl + 1)] + \
-               [obs(lambda j=j: a[[0], j]) for j in range(-maxl - 1, maxl + 1)]
+        return [obs(lambda a, j=j: a[:, j]) for j in range(-maxl - 1, maxl + 1)] + \
+               [obs(lambda a, j=j: a[[0], j]) for j in range(-maxl - 1, maxl + 1)]
     if probe == "col_slices":
-        return [obs(lambda s=s: a[:, slice(*s)]) for s in ([None, None, None], [1, None, None], [None, None, -1], [None, None, 2],
-                                                              [0, None, -1], [-2, None, None], [None, 1, None], [1, None, -2])]
+        return [obs(lambda a, s=s: a[:, slice(*s)]) for s in ([None, None, None], [1, None, None], [None, None, -1], [None, None, 2],
+                                                                 [0, None, -1], [-2, None, None], [None, 1, None], [1, None, -2])]
     if probe == "row_sels":
-        return [obs(lambda: a[1:]), obs(lambda: a[::-1]), obs(lambda: a[list(range(n))[::-1]]), obs(lambda: a[::2]),
-                obs(lambda: a[np.array([i % 2 == 1 for i in range(n)], dtype=bool)]), obs(lambda: a[...]), obs(lambda: a[-1:])]
+        return [obs(lambda a: a[1:]), obs(lambda a: a[::-1]), obs(lambda a: a[list(range(n))[::-1]]), obs(lambda a: a[::2]),
+                obs(lambda a: a[np.array([i % 2 == 1 for i in range(n)], dtype=bool)]), obs(lambda a: a[...]), obs(lambda a: a[-1:])]
     if probe == "ufunc":
-        return [obs(lambda: a * 2), obs(lambda: 100 - a), obs(lambda: a == a), obs(lambda: a + a),
-                obs(lambda: a + np.arange(n)[:, None]), obs(lambda: np.negative(a))]
+        return [obs(lambda a: a * 2), obs(lambda a: 100 - a), obs(lambda a: a == a), obs(lambda a: a + a),
+                obs(lambda a: a + np.arange(n)[:, None]), obs(lambda a: np.negative(a))]
     if probe == "reductions":
-        return [obs(lambda: a.sum(axis=-1)), obs(lambda: np.sum(a)), obs(lambda: a.any(axis=-1)), obs(lambda: a.all(axis=-1)),
-                obs(lambda: a.sum(axis=-1, keepdims=True)), obs(lambda: a.sum(axis=0) if maxl else 0), obs(lambda: a.col_counts() if maxl else 0)]
+        return [obs(lambda a: a.sum(axis=-1)), obs(lambda a: np.sum(a)), obs(lambda a: a.any(axis=-1)), obs(lambda a: a.all(axis=-1)),
+                obs(lambda a: a.sum(axis=-1, keepdims=True)), obs(lambda a: a.sum(axis=0) if maxl else 0),
+                obs(lambda a: a.col_counts() if maxl else 0), obs(lambda a: a.mean(axis=0) if maxl else 0),
+                obs(lambda a: a.astype(float).mean(axis=0) if maxl else 0), obs(lambda a: a.max(axis=-1) if min(map(len, rows)) else 0),
+                obs(lambda a: a.argmax(axis=-1) if min(map(len, rows)) else 0), obs(lambda a: np.add.reduce(a, axis=-1)),
+                obs(lambda a: a.get_column_values(0) if maxl else 0)]
     if probe == "concat":
-        return [obs(lambda: np.concatenate([a, a])), obs(lambda: np.concatenate([a, a], axis=-1)), obs(lambda: np.zeros_like(a)),
-                obs(lambda: np.diff(a, axis=-1))]
+        return [obs(lambda a: np.concatenate([a, a])), obs(lambda a: np.concatenate([a, a], axis=-1)), obs(lambda a: np.zeros_like(a)),
+                obs(lambda a: np.diff(a, axis=-1)), obs(lambda a: np.cumsum(a, axis=-1) if a.size else 0), obs(lambda a: a.sort(axis=-1)),
+                obs(lambda a: np.unique(a, axis=-1)), obs(lambda a: a.as_padded_matrix() if maxl else 0),
+                obs(lambda a: a.as_padded_matrix(side="left") if maxl else 0), obs(lambda a: np.add.accumulate(a, axis=-1) if a.size else 0)]
     if probe == "iter":
-        return [obs(lambda: [np.asarray(r).tolist() for r in a]), obs(lambda: a.ravel())]
+        return [obs(lambda a: [np.asarray(r).tolist() for r in a]), obs(lambda a: a.ravel()), obs(lambda a: repr(a)), obs(lambda a: a.tolist())]
     if probe == "astype":
-        return [obs(lambda: a.astype(float)), obs(lambda: a.astype(bool))]
+        return [obs(lambda a: a.astype(float)), obs(lambda a: a.astype(bool))]
     if probe == "nonzero":
-        return [obs(lambda: np.nonzero(a)), obs(lambda: a.subset(a > 12)), obs(lambda: a[a > 12])]
+        from npstructures import ragged_slice
+        return [obs(lambda a: np.nonzero(a)), obs(lambda a: a.subset(a > 12)), obs(lambda a: a[a > 12]),
+                obs(lambda a: a[fmask]), obs(lambda a: a.subset(fmask)), obs(lambda a: np.where(fmask, a, 0)),
+                obs(lambda a: np.where(fmask, 0, a)), obs(lambda a: ragged_slice(a, np.zeros(n, dtype=int), np.asarray(a.lengths))),
+                obs(lambda a: ragged_slice(a, ends=-np.minimum(1, np.asarray(a.lengths))))]
     raise KeyError(probe)
 
 
@@ -230,8 +249,8 @@ def check(case):
     if len(drows) == 0:
         return None
     f = RaggedArray(drows, dtype=d.dtype)
-    o_d = run_probe(probe, d, drows)
-    o_f = run_probe(probe, f, drows)
+    o_d = run_probe(probe, lambda: derive(fresh_source(), rows0, chain)[0], drows)
+    o_f = run_probe(probe, lambda: RaggedArray(drows, dtype=d.dtype), drows)
     for k, (x, y) in enumerate(zip(o_d, o_f)):
         if x != y:
             if x[0] == "raised" and y[0] == "raised":
